@@ -1,6 +1,8 @@
 /- GENERATED from lean/obligations.json by /verif/check. `lake env lean GoSquare/Audit.lean` prints the
    axioms every registered property theorem depends on; accepted: propext, Classical.choice, Quot.sound. -/
+import GoSquare.Properties.C01
 import GoSquare.Properties.C05
+import GoSquare.Properties.C06
 import GoSquare.Properties.C08
 import GoSquare.Properties.C09
 import GoSquare.Properties.C10
@@ -13,11 +15,26 @@ import GoSquare.Properties.C17
 import GoSquare.Properties.C18
 import GoSquare.Properties.C19
 import GoSquare.Properties.C20
+#print axioms GoSquare.C01.build_then_construct
+#print axioms GoSquare.C01.kept_export_eq
+#print axioms GoSquare.C01.replay_normals
+#print axioms GoSquare.C01.replay_blobs
+#print axioms GoSquare.buildLoop_spec
+#print axioms GoSquare.appendTx_spec
+#print axioms GoSquare.appendBlobTx_spec
 #print axioms GoSquare.C05.aligned_block_is_row_inner_node
 #print axioms GoSquare.C05.subtree_roots_are_row_inner_nodes
 #print axioms GoSquare.C05.chunks_getElem
 #print axioms GoSquare.C05.commitment_is_merkle_root_of_subtree_roots
 #print axioms GoSquare.Nmt.aligned_inner
+#print axioms GoSquare.C06.estimate_invariant
+#print axioms GoSquare.C06.estimate_le_max_squared
+#print axioms GoSquare.C06.refused_iff
+#print axioms GoSquare.C06.refused_unchanged
+#print axioms GoSquare.C06.side_is_minimal_and_bounded
+#print axioms GoSquare.C06.padding_within_reservation
+#print axioms GoSquare.appendTx_spec
+#print axioms GoSquare.appendBlobTx_spec
 #print axioms GoSquare.C08.roundtrip
 #print axioms GoSquare.C08.write_then_parse
 #print axioms GoSquare.C08.writeAll_eq_layout
